@@ -147,65 +147,84 @@ Proof. exact skew_beyond_tolerance_rejected. Qed.
     direction tried before the right one). *)
 Theorem C13_decryptor_recovers_plaintext :
   forall E, (forall k b, length (E k b) = 16) ->
-  forall (key : bytes) (mat : material) (st0 : mgr),
+  forall (key : bytes) (mat : material) (st0 : mgr) (evs : list event),
     mk_manager E key mat = Ok st0 ->
-  forall evs : list event,
     pdus_ok evs -> capture_ok E st0 st0 evs = true ->
     snd (attempt_all E {| keys := [key]; mats := [mat]; managers := [] |} (capture E st0 evs))
     = captured_plain evs.
 Proof. exact decryptor_recovers_plaintext. Qed.
 
-(** The decryptor's lists: materials are tried in order and, for each, the keys in order.
-    Combinations tried before the right one do not matter as long as they reject the PDU and
-    leave the cache as it is ([combo_rejects]); the first accepting combination gives the result.
-    Arbitrary decryptor state, arbitrary positions in the lists. *)
+(** The decryptor's lists: materials are tried in order (index i) and, for each, the keys in
+    order; managers are cached per (key, material index). Combinations tried before the right
+    one do not matter as long as they reject the PDU and leave the cache as it is
+    ([combo_rejects]); the first accepting combination gives the result. Arbitrary state. *)
 Theorem C13_decryptor_material_list :
-  forall E (ds : dstate) (pdu : bytes) (ms1 : list material) (mat : material) (ms2 : list material)
-         (ks1 : list bytes) (key : bytes) (ks2 : list bytes) (mgrs' : list (bytes * mgr)) (p : bytes),
+  forall E, (forall k b, length (E k b) = 16) ->
+  forall (ds : dstate) (pdu : bytes) (ms1 : list material) (mat : material) (ms2 : list material)
+         (ks1 : list bytes) (key : bytes) (ks2 : list bytes) (mgrs' : list ((bytes * N) * mgr)) (p : bytes),
     mats ds = ms1 ++ mat :: ms2 -> keys ds = ks1 ++ key :: ks2 ->
     (N.eqb (nth 1 pdu 0%N) 0 && N.eqb (N.land (nth 0 pdu 0%N) 3) 1)%bool = false ->
-    Forall (fun m => Forall (combo_rejects E (managers ds) pdu m) (keys ds)) ms1 ->
-    Forall (combo_rejects E (managers ds) pdu mat) ks1 ->
-    try_key E (managers ds) key mat pdu = (mgrs', Ok (Some p)) ->
+    Forall (fun im => Forall (combo_rejects E (managers ds) pdu (fst im) (snd im)) (keys ds)) (indexed 0 ms1) ->
+    Forall (combo_rejects E (managers ds) pdu (N.of_nat (length ms1)) mat) ks1 ->
+    try_key E (managers ds) key (N.of_nat (length ms1)) mat pdu = (mgrs', Ok (Some p)) ->
     attempt E ds pdu = ({| keys := keys ds; mats := mats ds; managers := mgrs' |}, Ok (Some p)).
 Proof. exact attempt_material_list. Qed.
 
-(** Captures made of several sessions (different keys and/or SKD/IV) on one decryptor: a
-    captured PDU of ANY session whose key and material the decryptor holds, anywhere in its
-    lists, is recovered exactly — from an arbitrary decryptor state (whatever other sessions
-    left in the cache), with [rx] the manager the decryptor uses for that key (the cached one,
-    else a fresh one built from this material), in step with the sender within the tolerance,
-    and the combinations tried before rejecting the PDU (MAC condition). Applies to every PDU
-    of every session in turn; successive and interleaved sessions alike. *)
+(** Per PDU, from an arbitrary decryptor state: a captured PDU of ANY session whose key and
+    material the decryptor holds, anywhere in its lists, is recovered exactly. *)
 Theorem C13_decryptor_recovers_multi_session_pdu :
   forall E, (forall k b, length (E k b) = 16) ->
   forall (ds : dstate) (ms1 : list material) (mat : material) (ms2 : list material)
          (ks1 : list bytes) (key : bytes) (ks2 : list bytes) (tx rx : mgr) (d : dir) (h l : N) (rest c : bytes),
     mats ds = ms1 ++ mat :: ms2 -> keys ds = ks1 ++ key :: ks2 ->
-    match lookup key (managers ds) with Some m => Ok m | None => mk_manager E key mat end = Ok rx ->
+    match lookup key (N.of_nat (length ms1)) (managers ds) with Some m => Ok m | None => mk_manager E key mat end = Ok rx ->
     sk tx = sk rx -> iv tx = iv rx -> (cnt rx d <= cnt tx d)%N ->
     encrypt E tx (h :: l :: rest) d = Ok c ->
     let a := air_pdu c in
     let gap := N.to_nat (cnt tx d - cnt rx d) in
     gap < 2 -> rejects_from E rx d (cnt rx d) gap a = true ->
     match d with M2S => true | S2M => rejects_from E rx M2S (cnt rx M2S) 2 a end = true ->
-    Forall (fun m => Forall (combo_rejects E (managers ds) a m) (keys ds)) ms1 ->
-    Forall (combo_rejects E (managers ds) a mat) ks1 ->
+    Forall (fun im => Forall (combo_rejects E (managers ds) a (fst im) (snd im)) (keys ds)) (indexed 0 ms1) ->
+    Forall (combo_rejects E (managers ds) a (N.of_nat (length ms1)) mat) ks1 ->
     attempt E ds a
     = ({| keys := keys ds; mats := mats ds;
-          managers := store key (incr (set_cnt rx d (cnt tx d)) d) (managers ds) |},
+          managers := store key (N.of_nat (length ms1)) (incr (set_cnt rx d (cnt tx d)) d) (managers ds) |},
        Ok (Some (h :: l :: rest))).
 Proof. exact decryptor_multi_session_pdu. Qed.
 
-(** Full statement for two successive sessions under the SAME key with fresh SKD/IV
-    (reconnection of bonded devices): REFUTED by the faithful model — the manager cache is keyed
-    by the key alone, the first session's manager is used for every material (known finding
-    decryptor-cache-keyed-by-key-only; the premise [lookup key ... = Ok rx] with [rx] in step
-    of the theorem above is what fails). *)
-Definition C13_decryptor_same_key_sessions_statement : Prop := same_key_sessions_statement.
+(** Whole captures made of several successive sessions (induction over the list of sessions,
+    each by induction over its PDUs): for ANY list of sessions whose keys and materials sit
+    anywhere in the decryptor's lists ([sess_wf]; keys may repeat, e.g. the same LTK with fresh
+    SKD/IV), from ANY cache state, every captured PDU of every session is recovered, in
+    order. [sessions_ok]: no manager is cached yet for a session's (key, material) when it
+    starts, and its PDUs are rejected by the combinations tried before the right one (MAC
+    condition, as in [capture_ok]). *)
+Theorem C13_decryptor_recovers_sessions :
+  forall E, (forall k b, length (E k b) = 16) ->
+  forall (ks : list bytes) (ms : list material) (l : list sess) (mgrs : list ((bytes * N) * mgr)),
+    Forall (sess_wf E ks ms) l -> sessions_ok E mgrs l ->
+    snd (attempt_all E {| keys := ks; mats := ms; managers := mgrs |}
+                     (concat (map (fun s => capture E (s_st0 s) (s_evs s)) l)))
+    = concat (map (fun s => captured_plain (s_evs s)) l).
+Proof. exact decryptor_recovers_sessions. Qed.
 
-Theorem C13_decryptor_same_key_sessions_refuted : ~ C13_decryptor_same_key_sessions_statement.
-Proof. exact same_key_sessions_refuted. Qed.
+(** The formerly refuted statement: two successive sessions under the SAME key with fresh
+    SKD/IV (reconnection of bonded devices) are both recovered (managers cached per key AND
+    material). The second session's PDUs are first tried with the first session's cached
+    manager, where they must be rejected (MAC condition [session_ok]). *)
+Definition C13_decryptor_same_key_sessions_statement : Prop :=
+  forall E, (forall k b, length (E k b) = 16) ->
+  forall (key : bytes) (m1 m2 : material) (st1 st2 : mgr) (evs1 evs2 : list event),
+    mk_manager E key m1 = Ok st1 -> mk_manager E key m2 = Ok st2 ->
+    pdus_ok evs1 -> pdus_ok evs2 ->
+    capture_ok E st1 st1 evs1 = true -> capture_ok E st2 st2 evs2 = true ->
+    session_ok E [] key [] [m1] m2 (session_final key [] [] st1 st1 evs1) st2 st2 evs2 ->
+    snd (attempt_all E {| keys := [key]; mats := [m1; m2]; managers := [] |}
+                     (capture E st1 evs1 ++ capture E st2 evs2))
+    = captured_plain evs1 ++ captured_plain evs2.
+
+Theorem C13_decryptor_same_key_sessions : C13_decryptor_same_key_sessions_statement.
+Proof. exact same_key_sessions. Qed.
 
 Theorem C13_decryptor_ignores_empty_pdu :
   forall E (ds : dstate) (h : N) (rest : bytes),
